@@ -1060,9 +1060,9 @@ def run_layers(ctx, with_model=True):
         jobs.append((base0, assign, allflag, "argv" if rng.random() < 0.25 else "kwargs"))
     # 2. random programs, every code its own random value in every layer
     PROFILE[0] = "std"
-    for _ in range(ctx.n(2, 12)):
+    for _ in range(ctx.n(2, 8)):
         base = gen_program(rng, small=True)
-        for _ in range(ctx.n(5, 25)):
+        for _ in range(ctx.n(5, 15)):
             jobs.append((base, None, rng.choice([None, None, "E", "D"]), "argv" if rng.random() < 0.3 else "kwargs"))
     # ---- run
     baselines = {}
@@ -1287,10 +1287,10 @@ def _run(ctx, with_model):
     for _ in range(ctx.n(3, 10)):
         program_case(ctx, batch, gen_program(ctx.rng, small=True), budget_small)
     lap("small_programs")
-    for _ in range(ctx.n(2, 30)):
+    for _ in range(ctx.n(2, 26)):
         program_case(ctx, batch, gen_program(ctx.rng), budget_rand)
     lap("random_programs")
-    for _ in range(ctx.n(1, 8)):   # sources where str.splitlines() and the tokenizer disagree (repaired by ba62f49)
+    for _ in range(ctx.n(1, 5)):   # sources where str.splitlines() and the tokenizer disagree (repaired by ba62f49)
         program_case(ctx, batch, inject_breaks(ctx.rng, gen_program(ctx.rng, small=True)), budget_rand)
     lap("break_programs")
     PROFILE[0] = "wide"      # every error code on: lint codes join the diagnostics and the subsets
